@@ -13,9 +13,7 @@ type Server struct {
 }
 
 func NewServer(s *openapi3.Server) (zero Server, _ error) {
-	variables, err := NewMap[ServerVariable, *openapi3.ServerVariable](s.Variables, func(sv *openapi3.ServerVariable) (ServerVariable, error) {
-		return NewServerVariable(sv), nil
-	})
+	variables, err := NewMap[ServerVariable, *openapi3.ServerVariable](s.Variables, NewServerVariable)
 	if err != nil {
 		return zero, fmt.Errorf("new variables: %w", err)
 	}
@@ -44,14 +42,25 @@ type ServerVariable struct {
 	Description string
 }
 
-func NewServerVariable(sv *openapi3.ServerVariable) ServerVariable {
+func NewServerVariable(sv *openapi3.ServerVariable) (zero ServerVariable, _ error) {
+	if sv == nil {
+		return zero, fmt.Errorf("server variable is empty")
+	}
 	enums := make([]string, 0, len(sv.Enum))
 	for _, e := range sv.Enum {
-		enums = append(enums, e.(string))
+		s, ok := e.(string)
+		if !ok {
+			return zero, fmt.Errorf("enum value %v: a string is expected", e)
+		}
+		enums = append(enums, s)
+	}
+	def, ok := sv.Default.(string)
+	if !ok && sv.Default != nil {
+		return zero, fmt.Errorf("default value %v: a string is expected", sv.Default)
 	}
 	return ServerVariable{
 		Enum:        enums,
-		Default:     sv.Default.(string),
+		Default:     def,
 		Description: sv.Description,
-	}
+	}, nil
 }
